@@ -2,7 +2,7 @@
 
 The model describes what a *correct* driver does for a command shape
 
-    (mode, o, kinds, outloc)
+    (mode, o, kinds, outloc [, var])
 
   mode    "E" | "S" | "c" | "link"
   o       None (no -o) | "file" (-o <path>) | "dash" (-o -, standard output; judged for -E and -S only)
@@ -10,12 +10,39 @@ The model describes what a *correct* driver does for a command shape
   outloc  "w" (fresh writable directory) | "sent" (every possible output path pre-exists with sentinel
           content) | "unw" (-o: path inside a directory that does not exist; no -o: every default output name
           is an existing directory)
+  var     optional, a tuple of (key, value) pairs - the further dimensions:
+            ("paths", (form, ...))   how each input is NAMED on the command line, form = "<dir form>|<name form>"
+                                     (DIR_FORMS x NAME_FORMS below); default: a name with extension in the cwd
+            ("oform", form)          how the -o path is spelled (O_FORMS); default "out.x"
+            ("md", "MD" | "MF")      -MD / -MD -MF deps.mk : a dependency file is requested as well
 
 and yields: the files to create before the run, the argv, the expected subprocess steps, the per-TU output paths,
 the set of requested outputs, and whether the command must succeed.  Nothing here looks at chibicc's sources;
 only conventional cc semantics that property C14 relies on are modelled, and everything the property does not
 define is marked undefined (`ok=None`) or `defined=False` so the checker never judges it.
+
+Input kinds comprise standard input ("-" with -xc / -x assembler: c_in, c_pp_in, c_gen_in, s_in) and a library
+argument ("-lm": lib), which is an input of the linker only and never a translation unit.
+
+Output naming (what "the requested outputs" are):
+  * with -o: that path, verbatim;
+  * without -o: one output per translation unit, named after the LAST COMPONENT of the input as written on the
+    command line with its extension (the part after the last dot of that component, if any) replaced, in the
+    current directory - whatever the directory part looks like.  Where conventions differ the model holds a set of
+    acceptable names (`alts`): a last component that is all extension (".c") gives ".o" (extension stripped) or
+    ".c.o" (gcc: a name without extension);
+  * -MD: one dependency file per C translation unit; accepted names: <base of -o or of the input>.d or
+    <base of -o>-<base of input>.d (gcc >= 11 when linking; "a-" without -o), in the current directory or next to
+    the -o path; -MF names it verbatim.
+  Two units whose documented default names coincide (same last component in different directories; one -o for
+  several units; one dependency file for several units) are a usage conflict: a driver may refuse the command
+  (gcc overwrites silently), so success is never required (`ok=None`); what is required is stated by the checker:
+  exit 0 means every translation unit's output is there.
+All paths of the model are relative to the root of the observed tree; commands run in `cwd_rel` below it
+("" for the classic layout, "wd" when path forms are in play - the tree then has wd/, wd/sub/, wd/d.1/, up.2/,
+ab.3/ so that inputs can be named through plain, dotted, parent and absolute directory parts).
 """
+import os
 
 SENTINEL = b"C14-SENTINEL-CONTENT\n"
 
@@ -35,15 +62,59 @@ KINDS = {
     "o":       ".o",   # links
     "o_bad":   ".o",   # references an undefined symbol: the linker rejects it
     "o_nx":    ".o",   # does not exist
+    # standard input as an input ("-"; needs -xc / -x assembler): the text of the base kind arrives on fd 0
+    "c_in":     None,
+    "c_pp_in":  None,
+    "c_gen_in": None,
+    "s_in":     None,
+    # a library argument (-lm): passed to the linker, not a translation unit
+    "lib":      None,
 }
 
-C_KINDS = ("c", "c_pp", "c_parse", "c_gen", "c_asm", "c_nx", "c_dir")
-S_KINDS = ("s", "s_bad", "s_nx")
+STDIN_KINDS = {"c_in": "c", "c_pp_in": "c_pp", "c_gen_in": "c_gen", "s_in": "s"}
+C_KINDS = ("c", "c_pp", "c_parse", "c_gen", "c_asm", "c_nx", "c_dir", "c_in", "c_pp_in", "c_gen_in")
+S_KINDS = ("s", "s_bad", "s_nx", "s_in")
 O_KINDS = ("o", "o_bad", "o_nx")
+
+# ---- how an input is named on the command line ------------------------------------------------------------
+# directory form -> (prefix written on the command line, directory relative to the tree root)
+ABS = "@ABS@"       # placeholder for the absolute path of the tree root (bound when the command is run)
+DIR_FORMS = {
+    "":         ("", "wd"),                     # the current directory, no directory part
+    "./":       ("./", "wd"),                   # a directory part whose only dot is "."
+    "sub/":     ("sub/", "wd/sub"),             # a plain subdirectory
+    "d.1/":     ("d.1/", "wd/d.1"),             # a subdirectory with a dot in its name
+    "../":      ("../", ""),                    # the parent directory
+    "../up.2/": ("../up.2/", "up.2"),           # a sibling directory with a dot in its name
+    "abs/":     (ABS + "/ab.3/", "ab.3"),       # an absolute path through a directory with a dot in its name
+}
+LAYOUT_DIRS = ("wd", "wd/sub", "wd/d.1", "up.2", "ab.3")
+# what a violation is attributed to: is there a directory part, and does it contain a dot
+DIR_CLASS = {"": "cwd", "sub/": "plain-dir", "./": "dotted-dir", "d.1/": "dotted-dir", "../": "dotted-dir",
+             "../up.2/": "dotted-dir", "abs/": "dotted-dir"}
+# name form -> last component for a C / an assembly input in slot i
+NAME_FORMS = {
+    "ext":     ("c%d.c", "s%d.s"),              # name.ext
+    "noext":   ("u%d", "u%d"),                  # no extension (needs -x)
+    "dots":    ("c%d.v2.c", "s%d.v2.s"),        # several dots: only the last extension is replaced
+    "dotonly": (".c", ".s"),                    # all extension
+    "same":    ("same.c", "same.s"),            # the same last component in every slot
+}
+# -o spellings (relative to the cwd); the first is the classic one
+O_FORMS = ("out.x", "./out", "out.v2.x", "d.1/out", "../up.2/out")
+MF_NAME = "deps.mk"
 
 
 def in_name(kind, slot):
+    if kind in STDIN_KINDS:
+        return "-"
+    if kind == "lib":
+        return "-lm"
     return "%s%d%s" % (kind.replace("_", ""), slot, KINDS[kind])
+
+
+def base_kind(kind):
+    return STDIN_KINDS.get(kind, kind)
 
 
 def base_of(name):
@@ -54,9 +125,10 @@ def sym(slot):
     return "vp_f%d" % slot
 
 
-def c_source(kind, slot):
+def c_source(kind, slot, main=None):
+    """main: does this unit define main()?  Default: the unit in slot 0 does."""
     body = "int %s(void){return %d;}\n" % (sym(slot), slot + 1)
-    if slot == 0:
+    if (slot == 0) if main is None else main:
         body += "int main(void){return 0;}\n"
     if kind == "c":
         return body
@@ -71,9 +143,9 @@ def c_source(kind, slot):
     raise KeyError(kind)
 
 
-def s_source(kind, slot):
+def s_source(kind, slot, main=None):
     t = ".text\n.globl %s\n%s:\n  mov $%d, %%eax\n  ret\n" % (sym(slot), sym(slot), slot + 1)
-    if slot == 0:
+    if (slot == 0) if main is None else main:
         t += ".globl main\nmain:\n  xor %eax, %eax\n  ret\n"
     if kind == "o_bad":
         t += ".globl vp_caller%d\nvp_caller%d:\n  call vp_undefined_symbol\n  ret\n" % (slot, slot)
@@ -84,6 +156,7 @@ def s_source(kind, slot):
 
 
 def cc1_fails(kind, mode):
+    kind = base_kind(kind)
     if kind in ("c_pp", "c_nx", "c_dir"):
         return True
     if kind in ("c_parse", "c_gen"):
@@ -91,25 +164,128 @@ def cc1_fails(kind, mode):
     return False
 
 
+def name_bases(arg):
+    """Acceptable 'names without extension' of the last component of `arg` (see module docstring)."""
+    b = arg.rsplit("/", 1)[-1]
+    if b.startswith(".") and b.count(".") == 1:
+        return ("", b)
+    if "." in b:
+        return (b.rsplit(".", 1)[0],)
+    return (b,)
+
+
+def _norm(*parts):
+    p = os.path.normpath(os.path.join(*[x for x in parts if x] or ["."]))
+    return "" if p == "." else p
+
+
 class Shape:
-    def __init__(self, mode, o, kinds, outloc):
+    def __init__(self, mode, o, kinds, outloc, var=()):
         self.mode, self.o, self.kinds, self.outloc = mode, o, tuple(kinds), outloc
-        self.inputs = [in_name(k, i) for i, k in enumerate(self.kinds)]
+        v = dict((k, val) for k, val in (var or ()))
+        unknown = set(v) - set(("paths", "oform", "md"))
+        if unknown:
+            raise ValueError("unknown shape dimension %s" % sorted(unknown))
+        self.paths = tuple(v["paths"]) if v.get("paths") else None
+        self.oform = v.get("oform")
+        self.md = v.get("md")
+        self.var = tuple(sorted((k, tuple(val) if isinstance(val, (list, tuple)) else val) for k, val in v.items() if val))
+        self.cwd_rel = "wd" if (self.paths or self.oform) else ""
+        if self.paths and len(self.paths) != len(self.kinds):
+            raise ValueError("one path form per input")
+        self._name_inputs()
         self._derive()
 
+    def spec(self):
+        base = (self.mode, self.o, self.kinds, self.outloc)
+        return base + (self.var,) if self.var else base
+
     def key(self):
-        return "%s|o=%s|%s|%s" % (self.mode, self.o or "absent", ",".join(self.kinds), self.outloc)
+        k = "%s|o=%s|%s|%s" % (self.mode, self.o or "absent", ",".join(self.kinds), self.outloc)
+        for name, val in self.var:
+            k += "|%s=%s" % (name, ",".join(val) if isinstance(val, tuple) else val)
+        return k
+
+    def tokens(self):
+        """What a violation is attributed to: the input kinds, each with its path form unless that is the classic
+        one, and the further option dimensions."""
+        t = []
+        for i, k in enumerate(self.kinds):
+            f = self.paths[i] if self.paths else "|ext"
+            d, n = f.split("|")
+            t.append(k if f == "|ext" else "%s@%s/%s" % (k, DIR_CLASS[d], n))
+        if self.md:
+            t.append("-MD" if self.md == "MD" else "-MD-MF")
+        if self.oform and self.oform != O_FORMS[0]:
+            d, b = os.path.split(self.oform)
+            t.append("-o@%s/%s" % (DIR_CLASS[d + "/" if d else ""], "noext" if "." not in b else "dots" if b.count(".") > 1 else "ext"))
+        return t
 
     # ------------------------------------------------------------------
+    def _name_inputs(self):
+        """inputs: as written on the command line (ABS = placeholder of the absolute tree root); in_files: where
+        the file lives relative to the tree root (None: standard input, library argument)."""
+        self.inputs, self.in_files, self.x = [], [], None
+        need_x, langs = False, set()
+        for i, k in enumerate(self.kinds):
+            bk = base_kind(k)
+            lang = "c" if k in C_KINDS else "assembler" if k in S_KINDS else "none" if k in O_KINDS else None
+            if lang:
+                langs.add(lang)
+            if k in STDIN_KINDS or k == "lib":
+                self.inputs.append(in_name(k, i))
+                self.in_files.append(None)
+                need_x = need_x or k in STDIN_KINDS
+                continue
+            form = self.paths[i] if self.paths else "|ext"
+            dform, nform = form.split("|")
+            if form == "|ext" and not self.cwd_rel:
+                name, prefix, drel = in_name(k, i), "", ""
+            else:
+                if bk not in ("c", "s"):
+                    raise ValueError("path forms are defined for the kinds c and s")
+                prefix, drel = DIR_FORMS[dform]
+                name = NAME_FORMS[nform][0 if bk == "c" else 1]
+                name = name % i if "%" in name else name
+                need_x = need_x or nform == "noext"
+            self.inputs.append(prefix + name)
+            self.in_files.append(_norm(drel, name))
+        self.invalid = None
+        if need_x:
+            if langs == {"c"}:
+                self.x = "c"
+            elif langs == {"assembler"}:
+                self.x = "assembler"
+            else:
+                self.invalid = "-x applies to every input: all inputs must be of one language"
+        if self.kinds.count("lib") == len(self.kinds):
+            self.invalid = "no input besides library arguments"
+        if sum(1 for k in self.kinds if k in STDIN_KINDS) > 1:
+            self.invalid = "standard input named twice"
+        if len(set(self.inputs) - {"-lm"}) < len([a for a in self.inputs if a != "-lm"]):
+            self.invalid = "the same input named twice"
+
+    def _cwd(self, rel):
+        """path relative to the cwd -> relative to the tree root"""
+        return _norm(self.cwd_rel, rel)
+
+    def _default_out(self, i, ext):
+        bases = name_bases(self.inputs[i])
+        alts = tuple(self._cwd(b + ext) for b in bases)
+        self.alts[alts[0]] = alts
+        return alts[0]
+
     def _derive(self):
         mode, kinds = self.mode, self.kinds
         self.defined = True
         self.why_undefined = None
-        if mode == "E" and any(k not in C_KINDS for k in kinds):
+        if self.invalid:
+            self.defined, self.why_undefined = False, self.invalid
+        if mode == "E" and any(k not in C_KINDS and k != "lib" for k in kinds):
             self.defined, self.why_undefined = False, "-E with non-C inputs"
         if self.outloc != "w" and mode == "E" and not self.o:
             self.defined, self.why_undefined = False, "-E without -o writes to stdout: no output location"
-        opath = None
+        opath = o_arg = None
         if self.o == "dash":
             # "-o -": standard output for -E and -S; what -c / link do with it is not defined by the property
             if mode in ("c", "link"):
@@ -117,63 +293,100 @@ class Shape:
             if self.outloc != "w":
                 self.defined, self.why_undefined = False, "-o - has no output location"
         elif self.o:
-            opath = "nodir/out.x" if self.outloc == "unw" else "out.x"
-        self.opath = opath
+            o_arg = self.oform or "out.x"
+            if self.outloc == "unw":
+                o_arg = "nodir/" + o_arg
+            opath = self._cwd(o_arg)
+        elif self.oform:
+            self.defined, self.why_undefined = False, "an -o spelling without -o"
+        self.opath, self.o_arg = opath, o_arg
         self.to_stdout = mode in ("E", "S") and (self.o == "dash" or (mode == "E" and not self.o))
 
         # per-slot outputs and steps of the ideal pipeline
         self.tu_out = {}        # slot -> requested output path of that input (None: stdout / temporary)
+        self.alts = {}          # requested output path -> acceptable alternatives (first = the path itself)
         self.steps = []         # (step kind, slot or None)
         self.nat_fail = []      # (step kind, slot) steps that fail by themselves
-        producing = 0
         for i, k in enumerate(kinds):
-            name = self.inputs[i]
+            bk = base_kind(k)
             if k in C_KINDS:
                 self.steps.append(("cc1", i))
                 if cc1_fails(k, mode):
                     self.nat_fail.append(("cc1", i))
                 if mode == "E":
                     self.tu_out[i] = opath
-                    producing += 1
                 elif mode == "S":
-                    self.tu_out[i] = None if self.o == "dash" else (opath or base_of(name) + ".s")
-                    producing += 1
+                    self.tu_out[i] = None if self.o == "dash" else (opath or self._default_out(i, ".s"))
                 elif mode == "c":
                     self.steps.append(("as", i))
-                    if k == "c_asm":
+                    if bk == "c_asm":
                         self.nat_fail.append(("as", i))
-                    self.tu_out[i] = opath or base_of(name) + ".o"
-                    producing += 1
+                    self.tu_out[i] = opath or self._default_out(i, ".o")
                 else:
                     self.steps.append(("as", i))
-                    if k == "c_asm":
+                    if bk == "c_asm":
                         self.nat_fail.append(("as", i))
                     self.tu_out[i] = None
             elif k in S_KINDS:
                 if mode in ("c", "link"):
                     self.steps.append(("as", i))
-                    if k != "s":
+                    if bk != "s":
                         self.nat_fail.append(("as", i))
-                    self.tu_out[i] = (opath or base_of(name) + ".o") if mode == "c" else None
-                    if mode == "c":
-                        producing += 1
-            else:
+                    self.tu_out[i] = (opath or self._default_out(i, ".o")) if mode == "c" else None
+            elif k in O_KINDS:
                 if mode == "link" and k != "o":
                     self.nat_fail.append(("ld", None))
         if mode == "link":
             self.steps.append(("ld", None))
-            self.final = opath or "a.out"
+            self.final = opath or self._cwd("a.out")
         else:
             self.final = None
 
         # requested outputs on success
         outs = []
+        self.shared = {}        # output path -> slots of the translation units it is the output of, if several
         for i in sorted(self.tu_out):
-            if self.tu_out[i] and self.tu_out[i] not in outs:
-                outs.append(self.tu_out[i])
+            p = self.tu_out[i]
+            if p and p not in outs:
+                outs.append(p)
+            elif p:
+                self.shared.setdefault(p, [j for j in sorted(self.tu_out) if self.tu_out[j] == p])
         if self.final:
             outs.append(self.final)
         self.outputs = outs
+
+        # dependency files (-MD): one per C translation unit, [(acceptable paths, slot)]
+        self.deps = []
+        if self.md:
+            nc = 0
+            for i, k in enumerate(kinds):
+                if k not in C_KINDS:
+                    continue
+                nc += 1
+                if self.md == "MF":
+                    self.deps.append(((self._cwd(MF_NAME),), i))
+                    continue
+                ibases = name_bases(self.inputs[i])
+                cands = []
+                if o_arg:
+                    odir = os.path.dirname(o_arg)
+                    for ob in name_bases(o_arg):
+                        for d in ("", odir):
+                            cands.append(os.path.join(d, ob + ".d"))
+                            cands += [os.path.join(d, "%s-%s.d" % (ob, ib)) for ib in ibases]
+                elif mode == "link":
+                    cands += ["a-%s.d" % ib for ib in ibases]
+                cands += [ib + ".d" for ib in ibases]
+                alts = []
+                for c in cands:
+                    if self._cwd(c) not in alts:
+                        alts.append(self._cwd(c))
+                self.deps.append((tuple(alts), i))
+            if any(k in STDIN_KINDS for k in kinds):
+                self.defined, self.why_undefined = False, "-MD with standard input: no input name to derive from"
+            if mode == "E" and self.o == "file":
+                # -E -MD -o x: x names the preprocessed text for one driver and the dependency file for another
+                self.defined, self.why_undefined = False, "-E -MD -o: what -o names is not defined by the property"
 
         # must the command succeed?   True / False / None (the property does not say)
         ok = True
@@ -184,27 +397,73 @@ class Shape:
         # inputs a correct driver may either ignore or reject: status undefined
         for i, k in enumerate(kinds):
             ignored = (k in S_KINDS and mode == "S") or (k in O_KINDS and mode in ("S", "c"))
-            if ignored and k not in ("s", "o") and ok:
+            if ignored and base_kind(k) not in ("s", "o") and ok:
                 ok = None
         self.usage_conflict = bool(self.o) and mode != "link" and len(kinds) > 1
         if self.usage_conflict:
             # several inputs and one -o outside link mode: drivers reject this or not depending on how many of
-            # the inputs produce output; the property does not say, so success is never required here.
+            # the inputs produce output (and on whether "-lm" counts); the property does not say, so success is
+            # never required here.
+            ok = None if ok else ok
+        # two translation units whose default output names coincide: same freedom
+        self.name_collision = bool(self.shared) and not self.o
+        if self.name_collision:
             ok = None if ok else ok
         self.ok = ok
 
     # ------------------------------------------------------------------
-    def argv(self):
+    def inputs_at(self, absroot):
+        return [a.replace(ABS, absroot) for a in self.inputs]
+
+    def argv(self, absroot="$ABS"):
         a = []
         if self.mode != "link":
             a.append("-" + self.mode)
+        if self.x:
+            a += ["-xc"] if self.x == "c" else ["-x", "assembler"]
+        if self.md:
+            a.append("-MD")
+            if self.md == "MF":
+                a += ["-MF", MF_NAME]
         if self.o:
-            a += ["-o", "-" if self.o == "dash" else self.opath]
-        return a + list(self.inputs)
+            a += ["-o", "-" if self.o == "dash" else self.o_arg]
+        return a + self.inputs_at(absroot)
+
+    def main_slot(self):
+        """The unit that defines main(): the first input that is not a library argument."""
+        return next(i for i, k in enumerate(self.kinds) if k != "lib")
+
+    def mat_key(self, kind, slot):
+        """Key of the prepared text of (kind, slot): the classic name, prefixed when main() has moved there."""
+        return ("main:" if slot and slot == self.main_slot() else "") + in_name(base_kind(kind), slot)
+
+    def materials(self):
+        """[(path relative to the tree root, kind, key of the text)] of the input files to create; kind decides
+        what it is (c_dir: a directory, *_nx: nothing)."""
+        return [(p, base_kind(k), self.mat_key(k, i)) for i, (p, k) in enumerate(zip(self.in_files, self.kinds)) if p is not None]
+
+    def stdin_material(self):
+        """(kind, key of the text) that arrives on standard input, or None."""
+        for i, k in enumerate(self.kinds):
+            if k in STDIN_KINDS:
+                return STDIN_KINDS[k], self.mat_key(k, i)
+        return None
+
+    def layout_dirs(self):
+        return LAYOUT_DIRS if self.cwd_rel else ()
 
     def possible_outputs(self):
         """Every path the command could legitimately write (used for sentinel / unwritable set-up)."""
         return list(self.outputs)
+
+    def allowed_paths(self):
+        """Every path a correct run may create or change."""
+        res = set()
+        for p in self.outputs:
+            res.update(self.alts.get(p, (p,)))
+        for alts, _ in self.deps:
+            res.update(alts)
+        return res
 
     def failed_tu_outputs(self, faulted_slots=()):
         """Output paths that belong to a translation unit that fails to compile (by its nature or by an injected
@@ -220,9 +479,14 @@ class Shape:
         return res
 
     def slot_of_input(self, path):
-        import os
+        """Slot of the input a step's argument names: the argument as written on the command line, else (classic
+        layout) by its last component when that is unambiguous."""
+        for i, a in enumerate(self.inputs):
+            if a == path or (a.startswith(ABS) and path.endswith(a[len(ABS):])):
+                return i
         b = os.path.basename(path)
-        return self.inputs.index(b) if b in self.inputs else None
+        hits = [i for i, a in enumerate(self.inputs) if os.path.basename(a) == b and self.in_files[i] is not None]
+        return hits[0] if len(hits) == 1 else None
 
 
 def enumerate_shapes(kinds_by_len, modes=("E", "S", "c", "link"), os_=(None, "file", "dash"), outlocs=("w", "sent", "unw")):
